@@ -34,6 +34,21 @@ func showItem(i btree.Item) string {
 	return strconv.Itoa(x.k) + ":" + strconv.Itoa(x.v)
 }
 
+// mk builds the item handed to btree.BTree: the harness' own kv, or the package's btree.Int in `newi` scripts.
+func (w *world) mk(k, v int) btree.Item {
+	if w.intMode {
+		return btree.Int(k)
+	}
+	return kv{k, v}
+}
+
+func fillVal(intMode bool, k int) int {
+	if intMode {
+		return 0
+	}
+	return ((k % 997) + 997) % 997
+}
+
 func showKV(x kv) string { return strconv.Itoa(x.k) + ":" + strconv.Itoa(x.v) }
 
 func showKVs(l []kv) string {
@@ -207,6 +222,7 @@ type world struct {
 	hits    []corr.Hit
 	seen    map[string]bool
 	hmu     sync.Mutex
+	intMode bool // `newi`: the items are btree.Int (keys only)
 	bigUsed bool // a limit in (2^24, 2^42] was already used in this script
 	par     bool // inside a parbegin…parend block: every handle is driven by its own goroutine
 }
@@ -353,7 +369,7 @@ func callWalk(b *tree.BTree, name string, p int, filter tree.FilterFn, n int) []
 	return nil
 }
 
-func runScan(t *btree.BTree, name string, p, p2 int, cont func(kv) bool) []kv {
+func runScan(t *btree.BTree, name string, pi, p2i btree.Item, cont func(kv) bool) []kv {
 	out := []kv{}
 	it := func(i btree.Item) bool {
 		x, _ := i.(kv)
@@ -364,23 +380,23 @@ func runScan(t *btree.BTree, name string, p, p2 int, cont func(kv) bool) []kv {
 	case "asc":
 		t.Ascend(it)
 	case "ascge":
-		t.AscendGreaterOrEqual(kv{k: p}, it)
+		t.AscendGreaterOrEqual(pi, it)
 	case "ascgt":
-		t.AscendGreater(kv{k: p}, it)
+		t.AscendGreater(pi, it)
 	case "asclt":
-		t.AscendLessThan(kv{k: p}, it)
+		t.AscendLessThan(pi, it)
 	case "ascrange":
-		t.AscendRange(kv{k: p}, kv{k: p2}, it)
+		t.AscendRange(pi, p2i, it)
 	case "desc":
 		t.Descend(it)
 	case "descle":
-		t.DescendLessOrEqual(kv{k: p}, it)
+		t.DescendLessOrEqual(pi, it)
 	case "desclt":
-		t.DescendLess(kv{k: p}, it)
+		t.DescendLess(pi, it)
 	case "descgt":
-		t.DescendGreaterThan(kv{k: p}, it)
+		t.DescendGreaterThan(pi, it)
 	case "descrange":
-		t.DescendRange(kv{k: p}, kv{k: p2}, it)
+		t.DescendRange(pi, p2i, it)
 	}
 	return out
 }
@@ -394,18 +410,20 @@ func (w *world) line(line string) string {
 		return "bad-op"
 	}
 	switch {
-	case f[0] == "new" && len(f) == 2:
+	case (f[0] == "new" || f[0] == "newi") && len(f) == 2:
 		d, ok := pNat(f[1])
-		if !ok || d < 2 || d > 64 {
+		if !ok || d < 2 || d > 256 {
 			return "bad-op"
 		}
 		w.wrapper, w.w = false, nil
+		w.intMode = f[0] == "newi"
 		w.bigUsed = false
 		w.trees = []*btree.BTree{btree.New(d)}
 		w.refs = []*ref{{}}
 		return "ok"
 	case f[0] == "neww" && len(f) == 1:
 		w.wrapper, w.trees = true, nil
+		w.intMode = false
 		w.bigUsed = false
 		w.w = tree.NewBTree()
 		w.refs = []*ref{{}}
@@ -429,19 +447,44 @@ func (w *world) line(line string) string {
 		if !ok1 || !ok2 {
 			return "bad-op"
 		}
-		out := showItem(t.ReplaceOrInsert(kv{k, v}))
+		if w.intMode && v != 0 {
+			return "bad-op"
+		}
+		out := showItem(t.ReplaceOrInsert(w.mk(k, v)))
 		want := optItem(r.put(kv{k, v}))
 		if out != want {
 			w.hit("btree:ReplaceOrInsert:wrong-return", fmt.Sprintf("ReplaceOrInsert(%d:%d) returned %s, the sorted set held %s", k, v, out, want))
 		}
 		w.afterWrite(h, "ReplaceOrInsert")
 		return out
+	case f[0] == "fill" && len(f) == 4:
+		a, ok1 := pInt(f[2])
+		b, ok2 := pInt(f[3])
+		if !ok1 || !ok2 {
+			return "bad-op"
+		}
+		n, step := b-a, 1
+		if a > b {
+			n, step = a-b, -1
+		}
+		if n < 0 || n > 4095 { // n < 0: the distance does not fit an int
+			return "bad-op"
+		}
+		for j, k := 0, a; j <= n; j, k = j+1, k+step {
+			v := fillVal(w.intMode, k)
+			out := showItem(t.ReplaceOrInsert(w.mk(k, v)))
+			if want := optItem(r.put(kv{k, v})); out != want {
+				w.hit("btree:ReplaceOrInsert:wrong-return", fmt.Sprintf("ReplaceOrInsert(%d:%d) (bulk fill) returned %s, the sorted set held %s", k, v, out, want))
+			}
+		}
+		w.afterWrite(h, "ReplaceOrInsert")
+		return strconv.Itoa(t.Len())
 	case f[0] == "del" && len(f) == 3:
 		k, ok1 := pInt(f[2])
 		if !ok1 {
 			return "bad-op"
 		}
-		out := showItem(t.Delete(kv{k: k}))
+		out := showItem(t.Delete(w.mk(k, 0)))
 		want := optItem(r.del(k))
 		if out != want {
 			w.hit("btree:Delete:wrong-return", fmt.Sprintf("Delete(%d) returned %s, the sorted set held %s", k, out, want))
@@ -475,7 +518,7 @@ func (w *world) line(line string) string {
 		if !ok1 {
 			return "bad-op"
 		}
-		out := showItem(t.Get(kv{k: k}))
+		out := showItem(t.Get(w.mk(k, 0)))
 		if want := optItem(r.get(k)); out != want {
 			w.hit("btree:Get:wrong-item", fmt.Sprintf("Get(%d)=%s, the sorted set holds %s", k, out, want))
 		}
@@ -485,7 +528,7 @@ func (w *world) line(line string) string {
 		if !ok1 {
 			return "bad-op"
 		}
-		out := t.Has(kv{k: k})
+		out := t.Has(w.mk(k, 0))
 		if _, want := r.get(k); out != want {
 			w.hit("btree:Has:wrong", fmt.Sprintf("Has(%d)=%v", k, out))
 		}
@@ -562,7 +605,7 @@ func (w *world) line(line string) string {
 		if !ok1 || !ok2 || !ok3 || hasP != need[0] || hasP2 != need[1] {
 			return "bad-op"
 		}
-		got := runScan(t, f[2], p, p2, cont)
+		got := runScan(t, f[2], w.mk(p, 0), w.mk(p2, 0), cont)
 		want := visited(r.scanRef(f[2], p, p2), cont)
 		if !eqKVs(got, want) {
 			w.hit("btree:scan:"+f[2]+":wrong-items", fmt.Sprintf("%s pivot=%s/%s cont=%s on %s handed %s to the callback, the sorted set gives %s",
@@ -592,6 +635,25 @@ func (w *world) wrapperLine(f []string) string {
 		r.put(kv{k, v})
 		w.afterWrapperWrite("Insert", r)
 		return "ok"
+	case f[0] == "wfill" && len(f) == 3:
+		a, ok1 := pInt(f[1])
+		c, ok2 := pInt(f[2])
+		if !ok1 || !ok2 {
+			return "bad-op"
+		}
+		n, step := c-a, 1
+		if a > c {
+			n, step = a-c, -1
+		}
+		if n < 0 || n > 4095 {
+			return "bad-op"
+		}
+		for j, k := 0, a; j <= n; j, k = j+1, k+step {
+			b.Insert(kv{k, fillVal(false, k)})
+			r.put(kv{k, fillVal(false, k)})
+		}
+		w.afterWrapperWrite("Insert", r)
+		return strconv.Itoa(b.VerifInner().Len())
 	case (f[0] == "wupd" || f[0] == "wups") && len(f) == 4:
 		old, ok0 := pInt(f[1])
 		k, ok1 := pInt(f[2])
